@@ -490,6 +490,7 @@ pub fn replay(ctx: &mut Ctx, d: &J) -> Option<()> {
                 }
             }
         }
+        "format-panic" => super::rerun_fixed(ctx),
         "arity" => {
             let f = fmt_of(d)?;
             let s = jstr(d, "input")?;
